@@ -923,6 +923,9 @@ impl CodegenContext {
                                 // We'll just return a dummy offset. This instruction will be re-emitted in a next pass anyway.
                                 0
                             } else {
+                                // Still emit the two bytes of a branch instruction, so the addresses of everything that
+                                // follows do not depend on whether this branch happens to be in range in this pass
+                                self.emit(full_span, &[0, 0])?;
                                 return Err(Diagnostic::error()
                                     .with_message(format!(
                                         "branch too far trying to reach ${:4X} from ${:4X}",
